@@ -355,4 +355,282 @@ theorem removeKey_refines {s : State κ} {o : OState κ} (k : κ) (hI : Inv s) (
         · simp only [hfg, if_false] at hf
           exact hR.known f hf
 
+/-! ### a flight changes only its `done` flag -/
+
+theorem setFlight_same {s : State κ} {o : OState κ} (f : Nat) (fl fl' : Flight κ) (hI : Inv s) (hR : Rel s o)
+    (hf : s.flights[f]? = some fl) (hk : fl'.key = fl.key) (ha : fl'.ans = fl.ans) (hr : fl'.removed = fl.removed)
+    (hd1 : fl'.done = true → fl'.ans ≠ none) (hd2 : fl'.done = true → fl'.ans = some none → fl'.removed = true) :
+    Inv { s with flights := s.flights.set f fl' } ∧ Rel { s with flights := s.flights.set f fl' } o := by
+  have hlt : f < s.flights.length := (List.getElem?_eq_some_iff.1 hf).1
+  have hmono : FlMono s.flights (s.flights.set f fl') :=
+    flmono_set _ f fl fl' hf hk (fun _ => ha) (fun h => by rw [hr]; exact h)
+  refine ⟨⟨?_, ?_, ?_, ?_, ?_, ?_⟩, ⟨hR.ncall, hR.call, ?_, hR.known, ?_⟩⟩
+  · intro k g hc
+    obtain ⟨x, h1, h2, h3⟩ := hI.cached k g hc
+    by_cases hfg : f = g
+    · subst hfg
+      rw [hf] at h1; injection h1 with h1; subst h1
+      exact ⟨fl', by simp [hlt], hk.trans h2, hr.trans h3⟩
+    · exact ⟨x, by simp only []; rw [List.getElem?_set_ne hfg]; exact h1, h2, h3⟩
+  · intro g x hx hxr
+    simp only [] at hx
+    rcases getElem?_set_cases _ _ _ _ _ hx with ⟨h1, h2⟩ | ⟨_, h2⟩
+    · subst h1; subst h2
+      rw [hk]; exact hI.uncached f fl hf (hr ▸ hxr)
+    · exact hI.uncached g x h2 hxr
+  · intro g x hx hd
+    simp only [] at hx
+    rcases getElem?_set_cases _ _ _ _ _ hx with ⟨_, h2⟩ | ⟨_, h2⟩
+    · subst h2; exact hd1 hd
+    · exact hI.doneAns g x h2 hd
+  · intro g x hx hd hax
+    simp only [] at hx
+    rcases getElem?_set_cases _ _ _ _ _ hx with ⟨_, h2⟩ | ⟨_, h2⟩
+    · subst h2; exact hd2 hd hax
+    · exact hI.failRem g x h2 hd hax
+  · intro c cl hc
+    exact callerOK_mono hmono cl (hI.callers c cl hc)
+  · intro g x hx hax
+    simp only [] at hx
+    rcases getElem?_set_cases _ _ _ _ _ hx with ⟨h1, h2⟩ | ⟨_, h2⟩
+    · subst h1; subst h2
+      exact hI.waiter f fl hf (ha ▸ hax)
+    · exact hI.waiter g x h2 hax
+  · intro g
+    rw [hR.flight g]
+    unfold absFlight
+    by_cases hfg : f = g
+    · subst hfg
+      have h1 : (s.flights.set f fl')[f]? = some fl' := by simp [hlt]
+      simp only [h1, hf, hk, ha, hr]
+    · simp only [List.getElem?_set_ne hfg]
+  · intro k
+    rw [hR.credit k, unann_set_same s.flights f fl fl' k hf hk ha]
+
+theorem setDone_refines {s : State κ} {o : OState κ} (f : Nat) (fl : Flight κ) (hI : Inv s) (hR : Rel s o)
+    (hf : s.flights[f]? = some fl) (ha : fl.ans ≠ none) (hr : fl.ans = some none → fl.removed = true) :
+    Inv (setDone s f) ∧ Rel (setDone s f) o := by
+  unfold setDone
+  simp only [hf]
+  exact setFlight_same f fl { fl with done := true } hI hR hf rfl rfl rfl (fun _ => ha) (fun _ => hr)
+
+/-! ### evictPreparedID -/
+
+theorem evictIfMatch_refines {s : State κ} {o : OState κ} (k : κ) (id : Id) (hI : Inv s) (hR : Rel s o) :
+    ∃ o', Obs.run o (evictIfMatch s k id).2 = some o' ∧ Inv (evictIfMatch s k id).1 ∧ Rel (evictIfMatch s k id).1 o' ∧
+      (evictIfMatch s k id).1.callers = s.callers := by
+  unfold evictIfMatch
+  cases hck : s.cache k with
+  | none => exact ⟨o, rfl, hI, hR, rfl⟩
+  | some g =>
+    obtain ⟨fl, hg, hkey, hrem⟩ := hI.cached k g hck
+    simp only [hg]
+    by_cases hd : fl.done = true
+    · simp only [hd, if_true]
+      cases ha : fl.ans with
+      | none => exact absurd ha (hI.doneAns g fl hg hd)
+      | some r =>
+        cases r with
+        | none =>
+          have := hI.failRem g fl hg hd ha
+          rw [hrem] at this; cases this
+        | some p =>
+          obtain ⟨id', n⟩ := p
+          simp only []
+          by_cases hid : id = id'
+          · simp only [hid, if_true]
+            obtain ⟨o', h1, h2, h3⟩ := removeKey_refines k hI hR
+            exact ⟨o', h1, h2, h3, removeKey_callers s k⟩
+          · rw [if_neg hid]
+            exact ⟨o, rfl, hI, hR, rfl⟩
+    · rw [if_neg hd]
+      exact ⟨o, rfl, hI, hR, rfl⟩
+
+/-- no schedule reaches the nil dereference of evictPreparedID -/
+theorem evictIfMatch_no_crash {s : State κ} (k : κ) (id : Id) (hI : Inv s) : Ev.crash ∉ (evictIfMatch s k id).2 := by
+  unfold evictIfMatch
+  cases hck : s.cache k with
+  | none => simp
+  | some g =>
+    obtain ⟨fl, hg, hkey, hrem⟩ := hI.cached k g hck
+    simp only [hg]
+    by_cases hd : fl.done = true
+    · simp only [hd, if_true]
+      cases ha : fl.ans with
+      | none => exact absurd ha (hI.doneAns g fl hg hd)
+      | some r =>
+        cases r with
+        | none =>
+          have := hI.failRem g fl hg hd ha
+          rw [hrem] at this; cases this
+        | some p =>
+          obtain ⟨id', n⟩ := p
+          simp only []
+          by_cases hid : id = id'
+          · simp only [hid, if_true]
+            unfold removeKey
+            simp [hck, hg]
+          · simp [hid]
+    · simp [hd]
+
+/-! ### the actions -/
+
+theorem call_refines {s : State κ} {o : OState κ} (b : Bool) (es : List (κ × Nat)) (hes : es ≠ []) (hI : Inv s) (hR : Rel s o) :
+    ∃ o', Obs.run o [.start s.callers.length b es] = some o' ∧
+      Inv { s with callers := s.callers ++ [{ batch := b, entries := es, got := [], pc := .start, banned := isRemoved s }] } ∧
+      Rel { s with callers := s.callers ++ [{ batch := b, entries := es, got := [], pc := .start, banned := isRemoved s }] } o' := by
+  refine ⟨{ o with callers := o.callers ++ [{ entries := es, pc := .active, banned := removedNow o }] }, ?_, ?_, ?_⟩
+  · simp [Obs.run, Obs.step, hR.ncall, hes]
+  · refine ⟨hI.cached, hI.uncached, hI.doneAns, hI.failRem, ?_, ?_⟩
+    · intro c cl hc
+      rcases getElem?_snoc_cases _ _ _ _ hc with ⟨_, h2⟩ | ⟨_, h2⟩
+      · exact hI.callers c cl h2
+      · subst h2
+        refine ⟨hes, fun f hf => hf, ?_⟩
+        show ([] : List Nat).length < es.length ∧ GotOK s.flights (isRemoved s) es []
+        refine ⟨?_, by simp [GotOK]⟩
+        cases es with
+        | nil => exact absurd rfl hes
+        | cons _ _ => simp
+    · intro f fl hf ha
+      obtain ⟨c0, cl0, h0, hp0⟩ := hI.waiter f fl hf ha
+      have hlt : c0 < s.callers.length := (List.getElem?_eq_some_iff.1 h0).1
+      exact ⟨c0, cl0, by simp only []; rw [List.getElem?_append_left hlt]; exact h0, hp0⟩
+  · refine ⟨by simp [hR.ncall], ?_, hR.flight, hR.known, hR.credit⟩
+    intro c cl hc
+    rcases getElem?_snoc_cases _ _ _ _ hc with ⟨h1, h2⟩ | ⟨h1, h2⟩
+    · obtain ⟨ocl, g1, g2⟩ := hR.call c cl h2
+      have hlt : c < o.callers.length := by rw [hR.ncall]; exact h1
+      exact ⟨ocl, by simp only []; rw [List.getElem?_append_left hlt]; exact g1, g2⟩
+    · subst h2
+      refine ⟨{ entries := es, pc := .active, banned := removedNow o }, ?_, rfl, removedNow_eq hR, rfl⟩
+      simp only []
+      rw [h1, ← hR.ncall]
+      exact List.getElem?_concat_length
+
+theorem lookup_hit_refines {s : State κ} {o : OState κ} (c : Nat) (cl : Caller κ) (e : κ × Nat) (f : Nat) (hI : Inv s) (hR : Rel s o)
+    (hc : s.callers[c]? = some cl) (hpc : cl.pc = .start) (he : cl.entries[cl.got.length]? = some e)
+    (hck : s.cache e.1 = some f) :
+    Inv { s with callers := s.callers.set c { cl with pc := .waiting f } } ∧
+    Rel { s with callers := s.callers.set c { cl with pc := .waiting f } } o := by
+  have hok := hI.callers c cl hc
+  have hp := hok.pcs
+  rw [hpc] at hp
+  obtain ⟨fl, hf, hk, hr⟩ := hI.cached e.1 f hck
+  have hban : cl.banned f = false := by
+    cases hb : cl.banned f with
+    | false => rfl
+    | true =>
+      have := hok.ban f hb
+      unfold isRemovedL at this
+      simp [hf, hr] at this
+  refine ⟨inv_updCaller hI hc ⟨hok.ne, hok.ban, ?_⟩ ?_, rel_updCaller_same hR hc rfl rfl ?_⟩
+  · exact ⟨hp.1, hp.2, fl, e, hf, he, hk, hban⟩
+  · intro f' fl' hw; rw [hpc] at hw; cases hw
+  · intro p hp'; rw [hpc] at hp'; exact hp'
+
+theorem unann_append (fls : List (Flight κ)) (x : Flight κ) (k : κ) :
+    unann (fls ++ [x]) k = unann fls k + (if x.key = k ∧ x.ans = none then 1 else 0) := by
+  unfold unann
+  rw [List.countP_append]
+  by_cases h1 : x.key = k <;> cases h2 : x.ans <;> simp [List.countP_cons, h1, h2]
+
+theorem lookup_miss_refines {s : State κ} {o : OState κ} (c : Nat) (cl : Caller κ) (e : κ × Nat) (hI : Inv s) (hR : Rel s o)
+    (hc : s.callers[c]? = some cl) (hpc : cl.pc = .start) (he : cl.entries[cl.got.length]? = some e)
+    (hck : s.cache e.1 = none) :
+    Inv { cache := fun k' => if k' = e.1 then some s.flights.length else s.cache k',
+          flights := s.flights ++ [{ key := e.1, ans := none, done := false, removed := false }],
+          callers := s.callers.set c { cl with pc := .waiting s.flights.length } } ∧
+    Rel { cache := fun k' => if k' = e.1 then some s.flights.length else s.cache k',
+          flights := s.flights ++ [{ key := e.1, ans := none, done := false, removed := false }],
+          callers := s.callers.set c { cl with pc := .waiting s.flights.length } } o := by
+  have hok := hI.callers c cl hc
+  have hp := hok.pcs
+  rw [hpc] at hp
+  have hclt : c < s.callers.length := (List.getElem?_eq_some_iff.1 hc).1
+  have hmono := flmono_append s.flights { key := e.1, ans := none, done := false, removed := false }
+  have hban : cl.banned s.flights.length = false := by
+    cases hb : cl.banned s.flights.length with
+    | false => rfl
+    | true =>
+      have := hok.ban _ hb
+      unfold isRemovedL at this
+      simp at this
+  constructor
+  · refine ⟨?_, ?_, ?_, ?_, ?_, ?_⟩
+    · intro k f hcf
+      simp only [] at hcf ⊢
+      by_cases hk : k = e.1
+      · simp [hk] at hcf
+        subst hcf
+        exact ⟨_, List.getElem?_concat_length, hk.symm, rfl⟩
+      · simp [hk] at hcf
+        obtain ⟨fl, h1, h2, h3⟩ := hI.cached k f hcf
+        obtain ⟨fl', g1, g2, _, _⟩ := hmono f fl h1
+        have hlt : f < s.flights.length := (List.getElem?_eq_some_iff.1 h1).1
+        exact ⟨fl, by rw [List.getElem?_append_left hlt]; exact h1, h2, h3⟩
+    · intro f x hx hxr
+      simp only [] at hx ⊢
+      rcases getElem?_snoc_cases _ _ _ _ hx with ⟨_, h2⟩ | ⟨h1, h2⟩
+      · have hcx := hI.uncached f x h2 hxr
+        have hne : x.key ≠ e.1 := by
+          intro h; rw [h, hck] at hcx; cases hcx
+        simp [hne, hcx]
+      · subst h2; simp [h1]
+    · intro f x hx hd
+      simp only [] at hx
+      rcases getElem?_snoc_cases _ _ _ _ hx with ⟨_, h2⟩ | ⟨_, h2⟩
+      · exact hI.doneAns f x h2 hd
+      · subst h2; cases hd
+    · intro f x hx hd hax
+      simp only [] at hx
+      rcases getElem?_snoc_cases _ _ _ _ hx with ⟨_, h2⟩ | ⟨_, h2⟩
+      · exact hI.failRem f x h2 hd hax
+      · subst h2; cases hd
+    · intro c' x hx
+      simp only [] at hx ⊢
+      rcases getElem?_set_cases _ _ _ _ _ hx with ⟨_, h2⟩ | ⟨_, h2⟩
+      · subst h2
+        refine ⟨hok.ne, fun f hf => isRemovedL_mono hmono f (hok.ban f hf), ?_⟩
+        exact ⟨hp.1, gotOK_mono hmono _ _ _ hp.2, _, e, List.getElem?_concat_length, he, rfl, hban⟩
+      · exact callerOK_mono hmono x (hI.callers c' x h2)
+    · intro f x hx hax
+      simp only [] at hx ⊢
+      rcases getElem?_snoc_cases _ _ _ _ hx with ⟨_, h2⟩ | ⟨h1, _⟩
+      · obtain ⟨c0, cl0, h0, hp0⟩ := hI.waiter f x h2 hax
+        have hne : c ≠ c0 := by
+          intro h; subst h
+          rw [hc] at h0; injection h0 with h0; subst h0
+          rw [hpc] at hp0; cases hp0
+        exact ⟨c0, cl0, by rw [List.getElem?_set_ne hne]; exact h0, hp0⟩
+      · subst h1
+        exact ⟨c, { cl with pc := .waiting s.flights.length }, by simp [hclt], rfl⟩
+  · refine ⟨by simp [hR.ncall], ?_, ?_, hR.known, ?_⟩
+    · intro c' x hx
+      simp only [] at hx
+      rcases getElem?_set_cases _ _ _ _ _ hx with ⟨h1, h2⟩ | ⟨_, h2⟩
+      · subst h1; subst h2
+        obtain ⟨ocl, g1, g2, g3, g4⟩ := hR.call c cl hc
+        rw [hpc] at g4
+        exact ⟨ocl, g1, g2, g3, g4⟩
+      · exact hR.call c' x h2
+    · intro f
+      rw [hR.flight f]
+      unfold absFlight
+      simp only []
+      by_cases hlt : f < s.flights.length
+      · rw [List.getElem?_append_left hlt]
+      · have hge : s.flights.length ≤ f := Nat.le_of_not_lt hlt
+        rw [List.getElem?_eq_none hge]
+        by_cases hfe : f = s.flights.length
+        · subst hfe; simp
+        · rw [List.getElem?_eq_none (by simp; omega)]
+    · intro k
+      simp only []
+      rw [hR.credit k, unann_append]
+      by_cases hk : k = e.1
+      · subst hk; simp [hck]
+      · have : ¬ e.1 = k := fun h => hk h.symm
+        simp [hk, this]
+
 end C14Conn
